@@ -31,14 +31,19 @@ pub enum Prog {
     Read,
     /// two commits in a row
     TwoCommits(u8),
+    /// a full Replica::sync against a (private, empty) harness server: pushes everything pending
+    Sync,
 }
 
 #[derive(Clone, Debug, PartialEq, serde::Serialize, serde::Deserialize)]
+#[allow(clippy::large_enum_variant)]
 pub enum Ev {
     Committed(Vec<Operation>),
     Undone(bool, Vec<Operation>),
     Rebuilt,
     Read(usize),
+    /// a sync completed: the operations it sent to the server
+    Synced(Vec<crate::model::ops::MOp>),
     Failed(String),
 }
 
@@ -161,6 +166,20 @@ async fn run_prog(dir: PathBuf, prog: Prog, gate: GateH) -> Vec<Ev> {
             Ok(()) => log.push(Ev::Rebuilt),
             Err(e) => log.push(Ev::Failed(format!("rebuild: {e:#}"))),
         },
+        Prog::Sync => {
+            let chain = std::sync::Arc::new(std::sync::Mutex::new(crate::world::mserver::ChainState::default()));
+            let mut server = crate::world::mserver::MServer::new(chain.clone(), 0).boxed();
+            match r.sync(&mut server, false).await {
+                Ok(()) => {
+                    let mut sent = vec![];
+                    for v in &chain.lock().unwrap().versions {
+                        sent.extend(crate::model::ops::parse_version_strict(&v.seg).unwrap_or_default());
+                    }
+                    log.push(Ev::Synced(sent));
+                }
+                Err(e) => log.push(Ev::Failed(format!("sync: {e:#}"))),
+            }
+        }
         Prog::Read => match (r.all_task_data().await, r.working_set().await) {
             (Ok(a), Ok(_)) => log.push(Ev::Read(a.len())),
             (Err(e), _) | (_, Err(e)) => log.push(Ev::Failed(format!("read: {e:#}"))),
@@ -296,6 +315,7 @@ impl Scenario for Sc17 {
         let mut committed: Vec<Vec<Operation>> = vec![];
         let mut undone: Vec<Vec<Operation>> = vec![];
         let mut failed_undos = 0;
+        let mut sent: Vec<ops::MOp> = vec![];
         for (i, r) in results.into_iter().enumerate() {
             let log = r.ok_or_else(|| format!("deadlock: handle {i} did not finish"))?;
             for e in log {
@@ -303,6 +323,7 @@ impl Scenario for Sc17 {
                     Ev::Committed(o) => committed.push(o),
                     Ev::Undone(true, o) => undone.push(o),
                     Ev::Undone(false, _) => failed_undos += 1,
+                    Ev::Synced(o) => sent.extend(o),
                     Ev::Failed(m) => return Err(format!("spurious-failure: handle {i} ({:?}): {m}", self.progs[i])),
                     _ => {}
                 }
@@ -313,36 +334,43 @@ impl Scenario for Sc17 {
             let mut st = SqliteStorage::new(&ctx.dir, AccessMode::ReadWrite, false).await.map_err(|e| format!("audit-open: {e:#}"))?;
             Ok::<_, String>(observe(&mut st).await)
         })?;
-        // every successful commit entirely present, contiguous and in order -- unless it was undone
+        // every successful commit entirely present, contiguous and in order -- in the unsynchronized
+        // list, or (whole) among the operations a concurrent sync sent -- unless it was undone
         let stored = &obs.unsynced;
+        let sync_form = |c: &[Operation]| -> Vec<ops::MOp> { c.iter().filter_map(ops::to_sync).collect() };
+        let contains = |hay: &[ops::MOp], needle: &[ops::MOp]| needle.is_empty() || hay.windows(needle.len()).any(|w| w.iter().zip(needle).all(|(a, b)| ops::mop_eq(a, b)));
         for c in &committed {
             let was_undone = undone.iter().any(|u| u.len() >= c.len() && u.windows(c.len()).any(|w| w == c.as_slice()));
-            let found = stored.windows(c.len()).any(|w| w == c.as_slice());
+            let in_store = stored.windows(c.len()).any(|w| w == c.as_slice());
+            let in_sent = contains(&sent, &sync_form(c));
             if was_undone {
-                if found {
+                if in_store {
                     return Err("undone-still-present: operations of an undone commit are still stored".into());
                 }
-            } else if !found {
+            } else if !in_store && !in_sent {
                 return Err(format!(
-                    "commit-lost: a commit that reported success is not entirely present, contiguous and in order ({} stored operations, commit of {})",
+                    "commit-lost: a commit that reported success is not entirely present, contiguous and in order ({} stored operations, {} sent by a sync, commit of {})",
                     stored.len(),
+                    sent.len(),
                     c.len()
                 ));
             }
         }
-        let expected_ops: usize = 3 + committed.iter().map(|c| c.len()).sum::<usize>() - undone.iter().map(|u| u.len()).sum::<usize>();
-        if stored.len() != expected_ops {
-            return Err(format!("op-count: {} operations are stored, the successful commits account for {expected_ops}", stored.len()));
+        let all_ops: usize = 3 + committed.iter().map(|c| sync_form(c).len()).sum::<usize>() - undone.iter().map(|u| sync_form(u).len()).sum::<usize>();
+        let have = sent.len() + sync_form(stored).len();
+        if have != all_ops {
+            return Err(format!("op-count: {have} operations are stored or were sent, the successful commits account for {all_ops}"));
         }
-        // replaying the stored operations in stored order reproduces the stored tasks
+        // replaying what was sent and then the stored operations, in order, reproduces the stored tasks
         let mut replay = Tasks::new();
+        ops::apply_all(&mut replay, sent.iter());
         for o in stored {
             if let Some(m) = ops::to_sync(o) {
                 ops::apply(&mut replay, &m);
             }
         }
         if replay != obs.tasks {
-            return Err(format!("not-serialisable: replaying the stored operations gives {} but the stored tasks are {}", tasks_str(&replay), tasks_str(&obs.tasks)));
+            return Err(format!("not-serialisable: replaying the recorded operations gives {} but the stored tasks are {}", tasks_str(&replay), tasks_str(&obs.tasks)));
         }
         // working set: no duplicates, and every task made pending by a surviving commit is there
         // (unless a rebuild dropped nothing it should not)
@@ -381,6 +409,8 @@ fn scenarios(tier: Tier) -> Vec<Sc17> {
         Sc17::new(vec![TwoCommits(1), TwoCommits(2)]),
         Sc17::new(vec![CommitNew(1), CommitNew(2), CommitNew(3)]),
         Sc17::new(vec![Reopen0, Reopen0, CommitNew(1)]),
+        Sc17::new(vec![Sync, CommitNew(1)]),
+        Sc17::new(vec![Sync, CommitThenUndo(1), Rebuild(false)]),
     ];
     // handles in separate processes (SQLite's cross-process file locking instead of its in-process one)
     v.push(Sc17::with_procs(vec![CommitNew(1), CommitNew(2)], vec![true, true]));
